@@ -310,6 +310,178 @@ RESULT = {
 }
 
 
+# ---- generic Option / Result combinators (std contracts; one line each). A symbolic variant forks. ----
+
+def _by_variant(eng, ctx, e, on):
+    """on: {variant index: callable(ctx) -> model result}; the ctx passed is the one of the alternative being taken"""
+    if isinstance(e.discr, int):
+        return on[e.discr](ctx)
+    return Fork([(eng.discr_is(e.discr, k), (lambda c, fn=fn: fn(c))) for k, fn in on.items()])
+
+
+def _opt(e3ng, ctx, v):
+    return _enum_of(e3ng, ctx, v)
+
+
+def _some(x):
+    return Enum(1, {1: Agg({0: x})}, "Option")
+
+
+NONE = lambda c=None: Enum(0, {}, "Option")
+
+
+def _ok(x):
+    return Enum(0, {0: Agg({0: x})}, "Result")
+
+
+def _err(x):
+    return Enum(1, {1: Agg({0: x})}, "Result")
+
+
+def call_and_wrap(eng, ctx, callee, args, wrap):
+    """wrap(callee(args)): the callee is a closure or fn item that is either straight-line (may have effects) or pure (may branch)"""
+    from .models_reg import run_closure
+    if isinstance(callee, Closure):
+        try:
+            return wrap(run_closure(eng, ctx, callee, args))
+        except Unsupported as ex:
+            if "straight-line" not in str(ex):
+                raise
+        from .models_str import run_pure
+        return wrap(run_pure(eng, ctx, callee, args))
+    return _then_wrap(eng, ctx, callee, args[0], wrap)
+
+
+def m_opt_as_ref(eng, ctx, f, path, args, dty):
+    p = args[0]
+    if not isinstance(p, Ptr):
+        raise Unsupported(f"Option::as_ref on {p}")
+    e = _enum_of(eng, ctx, p)
+    inner = Ptr(p.root, p.path + (("variant", "Some"), 0))
+    return _by_variant(eng, ctx, e, {0: NONE, 1: lambda c: _some(inner)})
+
+
+def m_opt_map(eng, ctx, f, path, args, dty):
+    e = _enum_of(eng, ctx, args[0])
+    return _by_variant(eng, ctx, e, {0: NONE, 1: lambda c: call_and_wrap(eng, c, args[1], [_payload(e, 1)], _some)})
+
+
+def m_opt_and_then(eng, ctx, f, path, args, dty):
+    e = _enum_of(eng, ctx, args[0])
+    return _by_variant(eng, ctx, e, {0: NONE, 1: lambda c: TailCall(args[1], [_payload(e, 1)])})
+
+
+def m_opt_or_else(eng, ctx, f, path, args, dty):
+    e = _enum_of(eng, ctx, args[0])
+    return _by_variant(eng, ctx, e, {0: lambda c: TailCall(args[1], []), 1: lambda c: e})
+
+
+def m_opt_unwrap_or_else(eng, ctx, f, path, args, dty):
+    e = _enum_of(eng, ctx, args[0])
+    return _by_variant(eng, ctx, e, {0: lambda c: TailCall(args[1], []), 1: lambda c: _payload(e, 1)})
+
+
+def m_opt_ok_or(eng, ctx, f, path, args, dty):
+    e = _enum_of(eng, ctx, args[0])
+    return _by_variant(eng, ctx, e, {0: lambda c: _err(args[1]), 1: lambda c: _ok(_payload(e, 1))})
+
+
+def m_opt_or(eng, ctx, f, path, args, dty):
+    e = _enum_of(eng, ctx, args[0])
+    return _by_variant(eng, ctx, e, {0: lambda c: args[1], 1: lambda c: e})
+
+
+def m_opt_take(eng, ctx, f, path, args, dty):
+    p = args[0]
+    e = _enum_of(eng, ctx, p)
+    eng.store_ptr(ctx, p, Enum(0, {}, "Option"))
+    return e
+
+
+def m_opt_replace(eng, ctx, f, path, args, dty):
+    p = args[0]
+    e = _enum_of(eng, ctx, p)
+    eng.store_ptr(ctx, p, _some(args[1]))
+    return e
+
+
+def m_opt_branch(eng, ctx, f, path, args, dty):
+    e = _enum_of(eng, ctx, args[0])
+    return _by_variant(eng, ctx, e, {1: lambda c: Enum(0, {0: Agg({0: _payload(e, 1)})}, "ControlFlow"),
+                                0: lambda c: Enum(1, {1: Agg({0: Enum(0, {}, "Option")})}, "ControlFlow")})
+
+
+def m_res_branch2(eng, ctx, f, path, args, dty):
+    e = _enum_of(eng, ctx, args[0])
+    return _by_variant(eng, ctx, e, {0: lambda c: Enum(0, {0: Agg({0: _payload(e, 0)})}, "ControlFlow"),
+                                1: lambda c: Enum(1, {1: Agg({0: _err(_payload(e, 1))})}, "ControlFlow")})
+
+
+def m_res_map2(eng, ctx, f, path, args, dty):
+    e = _enum_of(eng, ctx, args[0])
+    return _by_variant(eng, ctx, e, {1: lambda c: e, 0: lambda c: call_and_wrap(eng, c, args[1], [_payload(e, 0)], _ok)})
+
+
+def m_res_map_err3(eng, ctx, f, path, args, dty):
+    e = _enum_of(eng, ctx, args[0])
+    return _by_variant(eng, ctx, e, {0: lambda c: e, 1: lambda c: call_and_wrap(eng, c, args[1], [_payload(e, 1)], _err)})
+
+
+def m_res_or_else2(eng, ctx, f, path, args, dty):
+    e = _enum_of(eng, ctx, args[0])
+    return _by_variant(eng, ctx, e, {0: lambda c: e, 1: lambda c: TailCall(args[1], [_payload(e, 1)])})
+
+
+def m_res_and_then2(eng, ctx, f, path, args, dty):
+    e = _enum_of(eng, ctx, args[0])
+    return _by_variant(eng, ctx, e, {1: lambda c: e, 0: lambda c: TailCall(args[1], [_payload(e, 0)])})
+
+
+def m_res_ok2(eng, ctx, f, path, args, dty):
+    e = _enum_of(eng, ctx, args[0])
+    return _by_variant(eng, ctx, e, {0: lambda c: _some(_payload(e, 0)), 1: NONE})
+
+
+def m_res_err2(eng, ctx, f, path, args, dty):
+    e = _enum_of(eng, ctx, args[0])
+    return _by_variant(eng, ctx, e, {1: lambda c: _some(_payload(e, 1)), 0: NONE})
+
+
+def m_res_unwrap_or_else(eng, ctx, f, path, args, dty):
+    e = _enum_of(eng, ctx, args[0])
+    return _by_variant(eng, ctx, e, {0: lambda c: _payload(e, 0), 1: lambda c: TailCall(args[1], [_payload(e, 1)])})
+
+
+def m_res_map_or_else(eng, ctx, f, path, args, dty):
+    e = _enum_of(eng, ctx, args[0])
+    return _by_variant(eng, ctx, e, {0: lambda c: TailCall(args[2], [_payload(e, 0)]), 1: lambda c: TailCall(args[1], [_payload(e, 1)])})
+
+
+COMBINATORS = {
+    r"(^|::)Option::as_ref$|(^|::)Option::as_mut$": m_opt_as_ref,
+    r"(^|::)Option::map$": m_opt_map,
+    r"(^|::)Option::and_then$": m_opt_and_then,
+    r"(^|::)Option::or_else$": m_opt_or_else,
+    r"(^|::)Option::unwrap_or_else$": m_opt_unwrap_or_else,
+    r"(^|::)Option::ok_or$": m_opt_ok_or,
+    r"(^|::)Option::or$": m_opt_or,
+    r"(^|::)Option::take$": m_opt_take,
+    r"(^|::)Option::replace$": m_opt_replace,
+    r"^<Option as Try>::branch$": m_opt_branch,
+    r"^<Option as FromResidual>::from_residual$": lambda *a: Enum(0, {}, "Option"),
+    r"(^|::)Result::map$": m_res_map2,
+    r"(^|::)Result::map_err$": m_res_map_err3,
+    r"(^|::)Result::or_else$": m_res_or_else2,
+    r"(^|::)Result::and_then$": m_res_and_then2,
+    r"(^|::)Result::ok$": m_res_ok2,
+    r"(^|::)Result::err$": m_res_err2,
+    r"(^|::)Result::unwrap_or_else$": m_res_unwrap_or_else,
+    r"(^|::)Result::map_or_else$": m_res_map_or_else,
+    r"^<Result as Try>::branch$": m_res_branch2,
+    r"^<Result as FromResidual>::from_residual$": m_identity,
+}
+
+
 def _arith(fn):
     return lambda eng, ctx, f, path, args, dty: fn(args[0], args[1])
 
@@ -349,3 +521,5 @@ BASE = {
     r"::trailing_ones$": m_trailing_ones,
     r"f64::from_bits$|f64::to_bits$": m_identity,
 }
+for _k, _v in COMBINATORS.items():
+    BASE.setdefault(_k, _v)
